@@ -332,6 +332,24 @@ class ExprMixin:
     def ev_BoolOp(self, node, st):
         # value-producing and/or: only the boolean reading is supported,
         # except `x or ()` which the caller handles.
+        if isinstance(node.op, ast.Or) and len(node.values) == 2 and \
+                isinstance(node.values[1], ast.Tuple) and not node.values[1].elts:
+            # `x or ()`: x when truthy (a leaf is falsy when EMPTY), else the empty tuple
+            res = []
+            for s, a in self.ev(node.values[0], st):
+                if a.kind == "exc":
+                    res.append((s, a))
+                    continue
+                t = self.truth(s, a)
+                s_t = s.copy()
+                s_t.assume(t)
+                if self.feasible(s_t):
+                    res.append((s_t, a))
+                s_f = s
+                s_f.assume(z3.Not(t))
+                if self.feasible(s_f):
+                    res.append((s_f, SV("tuple", None, [])))
+            return res
         res = []
         for s, b in self.cond(node, st):
             res.append((s, b if isinstance(b, SV) else mk_bool(b)))
